@@ -120,7 +120,16 @@ fn cmd_net(args: &[String]) -> i32 {
 fn main() {
     let args: Vec<String> = std::env::args().collect();
     // keep the code under test quiet
-    std::panic::set_hook(Box::new(|_| {}));
+    std::panic::set_hook(Box::new(|info| {
+        if std::env::var("HARNESS_BT").is_ok() {
+            eprintln!("PANIC {info}\n{}", std::backtrace::Backtrace::force_capture());
+        }
+        if let Some(l) = info.location() {
+            if let Ok(mut g) = net::LAST_PANIC.lock() {
+                *g = format!("{}:{}", l.file().rsplit("/repo/").next().unwrap_or(l.file()), l.line());
+            }
+        }
+    }));
     let code = match args.get(1).map(|s| s.as_str()) {
         Some("net") => cmd_net(&args[2..]),
         Some("fn") => fncases::cmd_fn(&args[2..]),
